@@ -280,7 +280,7 @@ class Unit:
                  rec=False, flags=(), backends=("minisat",), canaries=(), bounded=None,
                  unwind=None, timeout=600, native=None, mode="c", tiers=("quick", "thorough"),
                  defines=None, trusted=(), assumptions=(), claim="", havoc_loops=False,
-                 expect_fail=(), object_bits=None, split=False, pre_inputs="", checks=None, ignore=None, unwinding_assertions=True, native_ubsan=True, fallback_unwind=None, allow_nobody=r"^(nondet_|__CPROVER|floor$|sqrt$|fmax$|fmin$|fabs$)", nondet_static=False, extra_files=()):
+                 expect_fail=(), object_bits=None, split=False, pre_inputs="", checks=None, ignore=None, unwinding_assertions=True, native_ubsan=True, fallback_unwind=None, allow_nobody=r"^(nondet_|__CPROVER|floor$|sqrt$|fmax$|fmin$|fabs$)", nondet_static=False, extra_files=(), native_only=False):
         self.__dict__.update(locals())
         del self.__dict__["self"]
 
@@ -673,8 +673,59 @@ def classify(name):
     return "other"
 
 
+def run_native_only(unit, tier, workdir):
+    """BOUNDED stand-in outside the verifier's reach (stated per unit): the extracted real text is compiled natively and compared with an independent
+    reference on a stated sample of inputs by the unit's driver vf_native().  Never counted as proved."""
+    R = UnitResult(unit)
+    t0 = time.time()
+    try:
+        tu, infos = unit.gen_tu(tier)
+    except Undecided as e:
+        R.status, R.reason = "undecided", str(e)
+        return R
+    R.fn_infos = infos
+    R.backend = "native (gcc, sampled)"
+    R.cmds = ["gcc -DVF_NATIVE -O0 -g -fsanitize=address,undefined <generated TU + driver> -lm ; run"]
+    verdict, out = native_replay(unit, tier, {}, workdir)
+    R.seconds["native"] = round(time.time() - t0, 2)
+    R.obligations = 1
+    R.classes["sampled"] = 1
+    R.samples.append({"obligation": "vf_native.sampled", "description": (unit.bounded or "")[:160], "status": "SUCCESS" if verdict == "not-reproduced" else "FAILURE", "unit": unit.name})
+    if verdict == "unavailable":
+        R.status, R.reason = "undecided", "native sampled check could not be built: " + out[-800:]
+        return R
+    if verdict == "reproduced":
+        R.status = "fail"
+        R.failed.append({"name": "vf_native.sampled", "description": "sampled comparison with the reference: " + " | ".join(l for l in out.splitlines() if "REPLAY-FAIL" in l or "SAMPLE" in l)[:600],
+                         "location": {}, "trace": None, "backend": "native"})
+        R.tu_path = None
+        R.out_path = None
+        R.log = out[-3000:]
+        return R
+    m = re.search(r"SAMPLED-COUNT (\d+)", out)
+    if not m or int(m.group(1)) <= 0:
+        R.status, R.reason = "undecided", "vacuity: the sampled driver compared no input"
+        return R
+    R.discharged = 1
+    # canaries: a mutated body must be caught by the sample
+    for k, cn in enumerate(unit.canaries):
+        try:
+            v, o = native_replay(unit, tier, {}, workdir, mutate=(cn["fn"], cn["rx"], cn["rp"], cn.get("count", 1)), tag="canary%d" % k)
+        except Undecided as e:
+            R.status, R.reason = "undecided", "canary run undecided: %s" % e
+            return R
+        R.canaries.append({"mutation": cn["rx"], "caught": v == "reproduced"})
+        if v != "reproduced":
+            R.status, R.reason = "undecided", "canary not caught by the sample: mutation %r of %s" % (cn["rx"], cn["fn"])
+            return R
+    R.status = "ok"
+    return R
+
+
 def run_unit(unit, tier, workdir):
     """Full treatment of one unit: main proof + vacuity guards + canaries."""
+    if unit.native_only:
+        return run_native_only(unit, tier, workdir)
     R = UnitResult(unit)
     t_start = time.time()
     try:
@@ -827,13 +878,13 @@ def _collect(lhs, val, w):
         w[lhs] = d
 
 
-def native_replay(unit, tier, witness, workdir):
+def native_replay(unit, tier, witness, workdir, mutate=None, tag="native"):
     """Compile the same extracted text natively and run vf_native(); returns (verdict, output).
     verdict: 'reproduced' | 'not-reproduced' | 'unavailable'"""
     if not unit.native:
         return "unavailable", "unit has no native replay driver"
-    tu, _ = unit.gen_tu(tier)
-    d = os.path.join(workdir, re.sub(r"\W", "_", unit.name) + "_native")
+    tu, _ = unit.gen_tu(tier, mutate)
+    d = os.path.join(workdir, re.sub(r"\W", "_", unit.name) + "_" + tag)
     os.makedirs(d, exist_ok=True)
     init = ["static void vf_load_witness(void) {"]
     for lhs, v in sorted(witness.items()):
@@ -850,7 +901,7 @@ int main(void) { vf_load_witness(); vf_native(); if (vf_fail) { printf("REPLAY-R
     rc, out, _ = run([cc, "-DVF_NATIVE", "-O0", "-g"] + san + ["-w", src, "-o", exe, "-lm"], 300)
     if rc != 0:
         return "unavailable", "native build failed: " + out[-1500:]
-    rc, out, _ = run([exe], 60, limit=False)
+    rc, out, _ = run([exe], 600 if unit.native_only else 60, limit=False)
     if rc == 1 and "REPLAY-FAIL" in out:
         return "reproduced", out[-3000:]
     if rc not in (0, 77) and ("ERROR: AddressSanitizer:" in out or "runtime error" in out):
